@@ -231,20 +231,21 @@ Close(i) == i \in DOMAIN it /\ it[i].src.t # "f" /\ it' = Del(it, i) /\ UNCHANGE
 
 \* mtbl_source_write(src, w): every entry of the source is offered to the writer in order; stops at the first refusal
 \* (heavy values are passed as operator arguments: TLC re-evaluates LET definitions inside actions on every use)
-SrcWriteTo(t, w, ok) ==
+SrcWriteTo(t, w, ok, strict) ==
     LET old == wr[w].t
         bad == SelectInSeq([j \in 1..Len(t) |-> IF j = 1 THEN ~AddOk(old, t[1].k) ELSE ~Lt(t[j-1].k, t[j].k)], LAMBDA x : x)
         n == IF bad = 0 THEN Len(t) ELSE bad - 1          \* longest prefix the gate accepts
     IN /\ w \in DOMAIN wr
-       /\ Len(t) > 0 => (ok <=> n = Len(t))               \* an empty source may report failure (no iterator)
+       /\ (strict \/ Len(t) > 0) => (ok <=> n = Len(t))   \* a reader over an empty table hands out no iterator and the call reports failure;
+                                                            \* a merger always has an iterator: nothing to write is success (strict)
        /\ wr' = [wr EXCEPT ![w].t = old \o SubSeq(t, 1, n)]
-SrcWriteOn(t, w, ok) == SrcWriteTo(t, w, ok) /\ UNCHANGED <<disk, rd, us, mg, so, fs, it, pl, judge>>
+SrcWriteOn(t, w, ok, strict) == SrcWriteTo(t, w, ok, strict) /\ UNCHANGED <<disk, rd, us, mg, so, fs, it, pl, judge>>
 \* a source that presents equal keys in an order nobody promised (no merge function, no dupsort): which of the equal
 \* entries reaches the writer first is free, so the file is not judged
 SrcWriteFree(w) == /\ w \in DOMAIN wr /\ wr' = [wr EXCEPT ![w].sorted = FALSE]
                    /\ UNCHANGED <<disk, rd, us, mg, so, fs, it, pl, judge>>
-SrcWriteC(c, w, ok) == IF c.ord \/ Strict(c.t) THEN SrcWriteOn(StripN(c.t), w, ok) ELSE SrcWriteFree(w)
-SrcWrite(src, w, ok) == SrcWriteC(Content(src), w, ok)
+SrcWriteC(c, w, ok, strict) == IF c.ord \/ Strict(c.t) THEN SrcWriteOn(StripN(c.t), w, ok, strict) ELSE SrcWriteFree(w)
+SrcWrite(src, w, ok) == SrcWriteC(Content(src), w, ok, src.t = "m")
 \* the mtbl_merge tool (C04, additional observation path): merges table files with the user's merge function into a new file
 MergeTool(inputs, out, ok) ==
     /\ \A j \in 1..Len(inputs) : inputs[j] \in DOMAIN disk /\ disk[inputs[j]].kind = "table"
@@ -290,7 +291,7 @@ SIter(s, i, null, spills) ==
 SWrite(s, w, ok, spills) ==
     /\ s \in DOMAIN so /\ SpillsOk(s, spills)
     /\ IF so[s].iterating THEN ~ok /\ UNCHANGED <<so, wr>>
-       ELSE /\ SrcWriteTo(StripN(SorterContent(s).t), w, ok)
+       ELSE /\ SrcWriteTo(StripN(SorterContent(s).t), w, ok, FALSE)
             /\ so' = [so EXCEPT ![s].iterating = TRUE, ![s].buf = 0, ![s].nspills = @ + Len(spills)]
     /\ UNCHANGED <<disk, rd, us, mg, fs, it, pl, judge>>
 SDestroy(s) == s \in DOMAIN so /\ so' = Del(so, s) /\ UNCHANGED <<disk, wr, rd, us, mg, fs, it, pl, judge>>
